@@ -43,39 +43,452 @@ theorem toInt32_id (x : Int) (h : inInt32 x = true) : toInt32 x = x := by
 
 /-! ## queries -/
 
+variable (cv : Nat → Nat)
+
 mutual
-theorem query_roundtrip : ∀ (q : Query), Query.supported q = true → q.toProto.fromProto = .ok q
-  | .all, _ => rfl
-  | .keyed _, _ => rfl
-  | .tagged k v, h => by
+theorem query_roundtrip : ∀ (q : Query), Query.supported q = true → q.capStable cv = true →
+    q.toProto.fromProto cv = .ok q
+  | .all, _, _ => rfl
+  | .keyed _, _, _ => rfl
+  | .tagged k v, h, _ => by
     cases v with
     | str s => rfl
     | other r => simp [Query.supported, TagVal.isStr] at h
-  | .typed t q, h => by
+  | .typed t q, h, hc => by
     simp only [Query.supported] at h
-    simp only [Query.toProto, QueryP.fromProto, query_roundtrip q h, ftype_roundtrip]
-  | .inter qs, h => by
+    simp only [Query.capStable] at hc
+    simp only [Query.toProto, QueryP.fromProto, query_roundtrip q h hc, ftype_roundtrip]
+  | .inter qs, h, hc => by
     simp only [Query.supported] at h
-    simp only [Query.toProto, QueryP.fromProto, queryList_roundtrip qs h, R.ok_bind]
-  | .union qs, h => by
+    simp only [Query.capStable] at hc
+    simp only [Query.toProto, QueryP.fromProto, queryList_roundtrip qs h hc, R.ok_bind]
+  | .union qs, h, hc => by
     simp only [Query.supported] at h
-    simp only [Query.toProto, QueryP.fromProto, queryList_roundtrip qs h, R.ok_bind]
-  | .cap _ _, _ => rfl
-  | .feature id, _ => by simp only [Query.toProto, QueryP.fromProto, wid_roundtrip]
-  | .point _, _ => rfl
-  | .polyline _, _ => rfl
-  | .multipolygon _, _ => rfl
-  | .empty, h => by simp [Query.supported] at h
-  | .isValid, h => by simp [Query.supported] at h
-  | .cells _, h => by simp [Query.supported] at h
-  | .might _, h => by simp [Query.supported] at h
+    simp only [Query.capStable] at hc
+    simp only [Query.toProto, QueryP.fromProto, queryList_roundtrip qs h hc, R.ok_bind]
+  | .cap c r, _, hc => by
+    simp only [Query.capStable, beq_iff_eq] at hc
+    simp only [Query.toProto, QueryP.fromProto, hc]
+  | .feature id, _, _ => by simp only [Query.toProto, QueryP.fromProto, wid_roundtrip]
+  | .point _, _, _ => rfl
+  | .polyline _, _, _ => rfl
+  | .multipolygon _, _, _ => rfl
+  | .empty, h, _ => by simp [Query.supported] at h
+  | .isValid, h, _ => by simp [Query.supported] at h
+  | .cells _, h, _ => by simp [Query.supported] at h
+  | .might _, h, _ => by simp [Query.supported] at h
 theorem queryList_roundtrip : ∀ (qs : QueryList), QueryList.supported qs = true →
-    qs.toProto.fromProto = .ok qs
-  | .nil, _ => rfl
-  | .cons q qs, h => by
+    qs.capStable cv = true → qs.toProto.fromProto cv = .ok qs
+  | .nil, _, _ => rfl
+  | .cons q qs, h, hc => by
     simp only [QueryList.supported, Bool.and_eq_true] at h
-    simp only [QueryList.toProto, QueryPList.fromProto, query_roundtrip q h.1,
-      queryList_roundtrip qs h.2, R.ok_bind]
+    simp only [QueryList.capStable, Bool.and_eq_true] at hc
+    simp only [QueryList.toProto, QueryPList.fromProto, query_roundtrip q h.1 hc.1,
+      queryList_roundtrip qs h.2 hc.2, R.ok_bind]
 end
+
+/-! ## expressions -/
+
+/-- a collection element's own `ToProto` result is a literal node other than the nil literal, and
+`FromLiteral` accepts it -/
+theorem elem_shape (a : Any) (h : Any.isElem a = true) (k : KindP) (hk : a.toProto = .ok k) :
+    ∃ l, k = .literal l ∧ a.elemToProto (.ok k) = .ok l ∧ ∀ r, l.elemFromProto r = r := by
+  cases a <;> simp only [Any.isElem, Bool.false_eq_true] at h
+  all_goals first
+    | (simp only [Any.toProto, R.ok.injEq] at hk
+       subst hk
+       exact ⟨_, rfl, rfl, fun _ => rfl⟩)
+    | skip
+  -- the nested collection
+  rename_i items
+  simp only [Any.toProto] at hk
+  cases hi : items.toProto with
+  | ok ps =>
+    simp only [hi, R.ok_bind, R.ok.injEq] at hk
+    subst hk
+    exact ⟨_, rfl, rfl, fun _ => rfl⟩
+  | err => simp [hi] at hk
+  | panic => simp [hi] at hk
+
+mutual
+theorem any_roundtrip : ∀ (a : Any), a.supported = true → a.capStable cv = true →
+    ∃ k, a.toProto = .ok k ∧ k.fromProto cv = .ok a
+  | .symbol _, _, _ => ⟨_, rfl, rfl⟩
+  | .int _, _, _ => ⟨_, rfl, rfl⟩
+  | .float _, _, _ => ⟨_, rfl, rfl⟩
+  | .bool _, _, _ => ⟨_, rfl, rfl⟩
+  | .str _, _, _ => ⟨_, rfl, rfl⟩
+  | .id f, _, _ => ⟨_, rfl, by simp only [KindP.fromProto, LitP.fromProto, wid_roundtrip]⟩
+  | .tag k v, h, _ => by
+    cases v with
+    | str s => exact ⟨_, rfl, rfl⟩
+    | other r => simp [Any.supported, TagVal.isStr] at h
+  | .point _, _, _ => ⟨_, rfl, rfl⟩
+  | .path _, _, _ => ⟨_, rfl, rfl⟩
+  | .area _, _, _ => ⟨_, rfl, rfl⟩
+  | .query q, h, hc => by
+    simp only [Any.supported] at h
+    simp only [Any.capStable] at hc
+    exact ⟨_, rfl, by simp only [KindP.fromProto, LitP.fromProto, query_roundtrip cv q h hc, R.ok_bind]⟩
+  | .route r, _, _ => ⟨_, rfl, by simp only [KindP.fromProto, LitP.fromProto, route_roundtrip]⟩
+  | .coll items, h, hc => by
+    simp only [Any.supported] at h
+    simp only [Any.capStable] at hc
+    obtain ⟨ps, h1, h2⟩ := pairList_roundtrip items h hc
+    refine ⟨.literal (.collV ps 0 0), by simp only [Any.toProto, h1, R.ok_bind], ?_⟩
+    simp [KindP.fromProto, LitP.fromProto, h2]
+  | .call f args p, h, hc => by
+    simp only [Any.supported, Bool.and_eq_true] at h
+    simp only [Any.capStable, Bool.and_eq_true] at hc
+    obtain ⟨fp, f1, f2⟩ := expr_roundtrip f h.1 hc.1
+    obtain ⟨ap, a1, a2⟩ := exprList_roundtrip args h.2 hc.2
+    exact ⟨.call fp ap p, by simp only [Any.toProto, a1, f1, R.ok_bind],
+      by simp only [KindP.fromProto, f2, a2, R.ok_bind]⟩
+  | .lambda params body, h, hc => by
+    simp only [Any.supported] at h
+    simp only [Any.capStable] at hc
+    obtain ⟨bp, b1, b2⟩ := expr_roundtrip body h hc
+    exact ⟨.lambda params bp, by simp only [Any.toProto, b1, R.ok_bind],
+      by simp only [KindP.fromProto, b2, R.ok_bind]⟩
+  | .absent, h, _ => by simp [Any.supported] at h
+  | .nilLit, h, _ => by simp [Any.supported] at h
+  | .geojson _, h, _ => by simp [Any.supported] at h
+  | .feature, h, _ => by simp [Any.supported] at h
+theorem expr_roundtrip : ∀ (e : Expr), e.supported = true → e.capStable cv = true →
+    ∃ p, e.toProto = .ok p ∧ p.fromProto cv = .ok e
+  | .mk a name b e, h, hc => by
+    simp only [Expr.supported, Bool.and_eq_true] at h
+    simp only [Expr.capStable] at hc
+    obtain ⟨k, k1, k2⟩ := any_roundtrip a h.1.1 hc
+    refine ⟨.mk k name b e, ?_, ?_⟩
+    · simp only [Expr.toProto, k1, toInt32_id b h.1.2, toInt32_id e h.2]
+    · simp only [NodeP.fromProto, k2, R.ok_bind]
+theorem exprList_roundtrip : ∀ (es : ExprList), es.supported = true → es.capStable cv = true →
+    ∃ ps, es.toProto = .ok ps ∧ ps.fromProto cv = .ok es
+  | .nil, _, _ => ⟨.nil, rfl, rfl⟩
+  | .cons e es, h, hc => by
+    simp only [ExprList.supported, Bool.and_eq_true] at h
+    simp only [ExprList.capStable, Bool.and_eq_true] at hc
+    obtain ⟨p, p1, p2⟩ := expr_roundtrip e h.1 hc.1
+    obtain ⟨ps, q1, q2⟩ := exprList_roundtrip es h.2 hc.2
+    exact ⟨.cons p ps, by simp only [ExprList.toProto, p1, q1, R.ok_bind],
+      by simp only [NodePList.fromProto, p2, q2, R.ok_bind]⟩
+theorem pairList_roundtrip : ∀ (items : PairList), items.supported = true → items.capStable cv = true →
+    ∃ ps, items.toProto = .ok ps ∧ ps.fromProto cv = .ok items
+  | .nil, _, _ => ⟨.nil, rfl, rfl⟩
+  | .cons k v rest, h, hc => by
+    simp only [PairList.supported, Bool.and_eq_true] at h
+    simp only [PairList.capStable, Bool.and_eq_true] at hc
+    obtain ⟨⟨⟨⟨hk1, hk2⟩, hv1⟩, hv2⟩, hr⟩ := h
+    obtain ⟨kk, k1, k2⟩ := any_roundtrip k hk2 hc.1.1
+    obtain ⟨vk, v1, v2⟩ := any_roundtrip v hv2 hc.1.2
+    obtain ⟨ps, r1, r2⟩ := pairList_roundtrip rest hr hc.2
+    obtain ⟨kl, rfl, ke, kf⟩ := elem_shape k hk1 kk k1
+    obtain ⟨vl, rfl, ve, vf⟩ := elem_shape v hv1 vk v1
+    refine ⟨.cons kl vl ps, ?_, ?_⟩
+    · simp only [PairList.toProto, k1, v1, ke, ve, r1, R.ok_bind]
+    · simp only [KindP.fromProto] at k2 v2
+      simp only [LitPairList.fromProto, kf, vf, k2, v2, r2, R.ok_bind]
+end
+
+/-- the statement without the condition on cap radii -/
+def proto_roundtrip_statement : Prop :=
+  ∀ (cv : Nat → Nat) (e : Expr), e.supported = true → ∃ p, e.toProto = .ok p ∧ p.fromProto cv = .ok e
+
+/-- **Wire round trip.**  Every supported expression tree — any depth, any mix of calls, lambdas,
+symbols, literals and query trees, with its names and positions — converts to its protobuf form, and that
+form converts back to the same tree; provided every `IntersectsCap` radius in it is one that the
+float conversion `cv` (meters → angle → chord angle → meters) reproduces. -/
+theorem proto_roundtrip_partial (e : Expr) (h : e.supported = true) (hc : e.capStable cv = true) :
+    ∃ p, e.toProto = .ok p ∧ p.fromProto cv = .ok e :=
+  expr_roundtrip cv e h hc
+
+/-- with an exact conversion (`cv = id`) there is no condition left -/
+theorem proto_roundtrip_exact (e : Expr) (h : e.supported = true) :
+    ∃ p, e.toProto = .ok p ∧ p.fromProto id = .ok e := by
+  have capId : ∀ e : Expr, e.capStable id = true := by
+    have hq : (∀ q : Query, q.capStable id = true) ∧ (∀ qs : QueryList, qs.capStable id = true) := by
+      constructor
+      · intro q
+        exact Query.rec (motive_1 := fun q => q.capStable id = true) (motive_2 := fun qs => qs.capStable id = true)
+          rfl rfl rfl (fun _ => rfl) (fun _ _ => rfl) (fun _ _ ih => by simpa [Query.capStable] using ih)
+          (fun _ ih => by simpa [Query.capStable] using ih) (fun _ ih => by simpa [Query.capStable] using ih)
+          (fun _ _ => by simp [Query.capStable]) (fun _ => rfl) (fun _ => rfl) (fun _ => rfl) (fun _ => rfl)
+          (fun _ => rfl) (fun _ => rfl) rfl (fun _ _ ih1 ih2 => by simp [QueryList.capStable, ih1, ih2]) q
+      · intro qs
+        exact QueryList.rec (motive_1 := fun q => q.capStable id = true) (motive_2 := fun qs => qs.capStable id = true)
+          rfl rfl rfl (fun _ => rfl) (fun _ _ => rfl) (fun _ _ ih => by simpa [Query.capStable] using ih)
+          (fun _ ih => by simpa [Query.capStable] using ih) (fun _ ih => by simpa [Query.capStable] using ih)
+          (fun _ _ => by simp [Query.capStable]) (fun _ => rfl) (fun _ => rfl) (fun _ => rfl) (fun _ => rfl)
+          (fun _ => rfl) (fun _ => rfl) rfl (fun _ _ ih1 ih2 => by simp [QueryList.capStable, ih1, ih2]) qs
+    intro e
+    exact Expr.rec (motive_1 := fun a => a.capStable id = true) (motive_2 := fun e => e.capStable id = true)
+      (motive_3 := fun es => es.capStable id = true) (motive_4 := fun ps => ps.capStable id = true)
+      rfl (fun _ => rfl) (fun _ => rfl) (fun _ => rfl) (fun _ => rfl) (fun _ => rfl) (fun _ => rfl)
+      (fun _ _ => rfl) (fun _ => rfl) (fun _ => rfl) (fun _ => rfl)
+      (fun q => by simpa [Any.capStable] using hq.1 q) rfl (fun _ => rfl) rfl (fun _ => rfl)
+      (fun _ ih => by simpa [Any.capStable] using ih)
+      (fun _ _ _ ih1 ih2 => by simp [Any.capStable, ih1, ih2])
+      (fun _ _ ih => by simpa [Any.capStable] using ih)
+      (fun _ _ _ _ ih => by simpa [Expr.capStable] using ih)
+      rfl (fun _ _ ih1 ih2 => by simp [ExprList.capStable, ih1, ih2])
+      rfl (fun _ _ _ ih1 ih2 ih3 => by simp [PairList.capStable, ih1, ih2, ih3]) e
+  exact expr_roundtrip id e h (capId e)
+
+/-- Converting a second time changes nothing: the re-read expression produces the same protobuf form. -/
+theorem proto_idempotent (e e' : Expr) (p : NodeP) (h : e.supported = true) (hc : e.capStable cv = true)
+    (h1 : e.toProto = .ok p) (h2 : p.fromProto cv = .ok e') : e'.toProto = .ok p := by
+  obtain ⟨p', q1, q2⟩ := expr_roundtrip cv e h hc
+  rw [h1] at q1
+  cases q1
+  rw [q2] at h2
+  cases h2
+  exact h1
+
+/-! ## the client's side: what the server accepts is in the round-trip domain -/
+
+theorem R.bind_ok {α β : Type} (r : R α) (f : α → R β) (b : β) (h : r.bind f = .ok b) :
+    ∃ a, r = .ok a ∧ f a = .ok b := by
+  cases r with
+  | ok a => exact ⟨a, rfl, h⟩
+  | err => simp at h
+  | panic => simp at h
+
+mutual
+theorem queryP_accepted : ∀ (p : QueryP) (q : Query), p.fromProto cv = .ok q → q.supported = true
+  | .all, q, h => by simp only [QueryP.fromProto, R.ok.injEq] at h; subst h; rfl
+  | .keyed _, q, h => by simp only [QueryP.fromProto, R.ok.injEq] at h; subst h; rfl
+  | .tagged _ _, q, h => by simp only [QueryP.fromProto, R.ok.injEq] at h; subst h; rfl
+  | .cap _ _, q, h => by simp only [QueryP.fromProto, R.ok.injEq] at h; subst h; rfl
+  | .point _, q, h => by simp only [QueryP.fromProto, R.ok.injEq] at h; subst h; rfl
+  | .polyline _, q, h => by simp only [QueryP.fromProto, R.ok.injEq] at h; subst h; rfl
+  | .multipolygon _, q, h => by simp only [QueryP.fromProto, R.ok.injEq] at h; subst h; rfl
+  | .feature id, q, h => by
+    simp only [QueryP.fromProto] at h
+    split at h
+    · simp only [R.ok.injEq] at h; subst h; rfl
+    · simp at h
+  | .typed e c, q, h => by
+    simp only [QueryP.fromProto] at h
+    split at h
+    · rename_i child hc
+      split at h
+      · simp only [R.ok.injEq] at h; subst h
+        simp only [Query.supported]
+        exact queryP_accepted c child hc
+      · simp at h
+    · simp at h
+    · simp at h
+  | .inter qs, q, h => by
+    simp only [QueryP.fromProto] at h
+    obtain ⟨l, hl, h⟩ := R.bind_ok _ _ _ h
+    simp only [R.ok.injEq] at h; subst h
+    simp only [Query.supported]
+    exact queryPList_accepted qs l hl
+  | .union qs, q, h => by
+    simp only [QueryP.fromProto] at h
+    obtain ⟨l, hl, h⟩ := R.bind_ok _ _ _ h
+    simp only [R.ok.injEq] at h; subst h
+    simp only [Query.supported]
+    exact queryPList_accepted qs l hl
+  | .typedNoQuery _, _, h => by simp [QueryP.fromProto] at h
+  | .empty, _, h => by simp [QueryP.fromProto] at h
+  | .isValid, _, h => by simp [QueryP.fromProto] at h
+  | .cells _, _, h => by simp [QueryP.fromProto] at h
+  | .might _, _, h => by simp [QueryP.fromProto] at h
+  | .unset, _, h => by simp [QueryP.fromProto] at h
+theorem queryPList_accepted : ∀ (ps : QueryPList) (qs : QueryList), ps.fromProto cv = .ok qs →
+    qs.supported = true
+  | .nil, qs, h => by simp only [QueryPList.fromProto, R.ok.injEq] at h; subst h; rfl
+  | .cons p ps, qs, h => by
+    simp only [QueryPList.fromProto] at h
+    obtain ⟨q', hq, h⟩ := R.bind_ok _ _ _ h
+    obtain ⟨qs', hqs, h⟩ := R.bind_ok _ _ _ h
+    simp only [R.ok.injEq] at h; subst h
+    simp only [QueryList.supported, Bool.and_eq_true]
+    exact ⟨queryP_accepted p q' hq, queryPList_accepted ps qs' hqs⟩
+end
+
+mutual
+theorem litP_accepted : ∀ (l : LitP) (a : Any), l.wire = true → l.fromProto cv = .ok a →
+    a.supported = true ∧ (LitP.notQuery l = true → Any.isElem a = true)
+  | .intV _, a, _, h => by simp only [LitP.fromProto, R.ok.injEq] at h; subst h; exact ⟨rfl, fun _ => rfl⟩
+  | .floatV _, a, _, h => by simp only [LitP.fromProto, R.ok.injEq] at h; subst h; exact ⟨rfl, fun _ => rfl⟩
+  | .boolV _, a, _, h => by simp only [LitP.fromProto, R.ok.injEq] at h; subst h; exact ⟨rfl, fun _ => rfl⟩
+  | .strV _, a, _, h => by simp only [LitP.fromProto, R.ok.injEq] at h; subst h; exact ⟨rfl, fun _ => rfl⟩
+  | .tagV _ _, a, _, h => by simp only [LitP.fromProto, R.ok.injEq] at h; subst h; exact ⟨rfl, fun _ => rfl⟩
+  | .pointV _, a, _, h => by simp only [LitP.fromProto, R.ok.injEq] at h; subst h; exact ⟨rfl, fun _ => rfl⟩
+  | .pathV _, a, _, h => by simp only [LitP.fromProto, R.ok.injEq] at h; subst h; exact ⟨rfl, fun _ => rfl⟩
+  | .areaV _, a, _, h => by simp only [LitP.fromProto, R.ok.injEq] at h; subst h; exact ⟨rfl, fun _ => rfl⟩
+  | .idV id, a, _, h => by
+    simp only [LitP.fromProto] at h
+    split at h
+    · simp only [R.ok.injEq] at h; subst h; exact ⟨rfl, fun _ => rfl⟩
+    · simp at h
+  | .routeV r, a, _, h => by
+    simp only [LitP.fromProto] at h
+    split at h
+    · simp only [R.ok.injEq] at h; subst h; exact ⟨rfl, fun _ => rfl⟩
+    · simp at h
+  | .queryV q, a, _, h => by
+    simp only [LitP.fromProto] at h
+    obtain ⟨q', hq, h⟩ := R.bind_ok _ _ _ h
+    simp only [R.ok.injEq] at h; subst h
+    exact ⟨by simp only [Any.supported]; exact queryP_accepted cv q q' hq, fun hn => by simp [LitP.notQuery] at hn⟩
+  | .collV pairs sk sv, a, hw, h => by
+    simp only [LitP.fromProto] at h
+    split at h
+    · simp at h
+    · obtain ⟨items, hi, h⟩ := R.bind_ok _ _ _ h
+      simp only [R.ok.injEq] at h; subst h
+      simp only [LitP.wire] at hw
+      exact ⟨by simp only [Any.supported]; exact litPairList_accepted pairs items hw hi, fun _ => rfl⟩
+  | .nilV, _, hw, _ => by simp [LitP.wire] at hw
+  | .geojsonV _, _, _, h => by simp [LitP.fromProto] at h
+  | .pairV, _, _, h => by simp [LitP.fromProto] at h
+  | .featureV, _, _, h => by simp [LitP.fromProto] at h
+  | .appliedChangeV, _, _, h => by simp [LitP.fromProto] at h
+  | .unset, _, _, h => by simp [LitP.fromProto] at h
+theorem litPairList_accepted : ∀ (ps : LitPairList) (items : PairList), ps.wire = true →
+    ps.fromProto cv = .ok items → items.supported = true
+  | .nil, items, _, h => by simp only [LitPairList.fromProto, R.ok.injEq] at h; subst h; rfl
+  | .cons k v rest, items, hw, h => by
+    simp only [LitPairList.wire, Bool.and_eq_true] at hw
+    obtain ⟨⟨⟨⟨hkq, hkw⟩, hvq⟩, hvw⟩, hrw⟩ := hw
+    simp only [LitPairList.fromProto] at h
+    obtain ⟨k', hk, h⟩ := R.bind_ok _ _ _ h
+    obtain ⟨v', hv, h⟩ := R.bind_ok _ _ _ h
+    obtain ⟨r', hr, h⟩ := R.bind_ok _ _ _ h
+    simp only [R.ok.injEq] at h; subst h
+    have ek : k.elemFromProto (k.fromProto cv) = k.fromProto cv := by
+      cases k <;> first | rfl | simp [LitP.wire] at hkw
+    have ev : v.elemFromProto (v.fromProto cv) = v.fromProto cv := by
+      cases v <;> first | rfl | simp [LitP.wire] at hvw
+    rw [ek] at hk
+    rw [ev] at hv
+    have ak := litP_accepted k k' hkw hk
+    have av := litP_accepted v v' hvw hv
+    simp only [PairList.supported, Bool.and_eq_true]
+    exact ⟨⟨⟨⟨ak.2 hkq, ak.1⟩, av.2 hvq⟩, av.1⟩, litPairList_accepted rest r' hrw hr⟩
+end
+
+mutual
+theorem kindP_accepted : ∀ (k : KindP) (a : Any), k.wire = true → k.fromProto cv = .ok a →
+    a.supported = true
+  | .symbol _, a, _, h => by simp only [KindP.fromProto, R.ok.injEq] at h; subst h; rfl
+  | .literal l, a, hw, h => by
+    simp only [KindP.wire] at hw
+    simp only [KindP.fromProto] at h
+    exact (litP_accepted cv l a hw h).1
+  | .call f args p, a, hw, h => by
+    simp only [KindP.wire, Bool.and_eq_true] at hw
+    simp only [KindP.fromProto] at h
+    obtain ⟨f', hf, h⟩ := R.bind_ok _ _ _ h
+    obtain ⟨as, ha, h⟩ := R.bind_ok _ _ _ h
+    simp only [R.ok.injEq] at h; subst h
+    simp only [Any.supported, Bool.and_eq_true]
+    exact ⟨nodeP_accepted f f' hw.1 hf, nodePList_accepted args as hw.2 ha⟩
+  | .lambda _ body, a, hw, h => by
+    simp only [KindP.wire] at hw
+    simp only [KindP.fromProto] at h
+    obtain ⟨b, hb, h⟩ := R.bind_ok _ _ _ h
+    simp only [R.ok.injEq] at h; subst h
+    simp only [Any.supported]
+    exact nodeP_accepted body b hw hb
+  | .unset, _, _, h => by simp [KindP.fromProto] at h
+theorem nodeP_accepted : ∀ (p : NodeP) (e : Expr), p.wire = true → p.fromProto cv = .ok e →
+    e.supported = true
+  | .mk k name b e, ex, hw, h => by
+    simp only [NodeP.wire, Bool.and_eq_true] at hw
+    simp only [NodeP.fromProto] at h
+    obtain ⟨a, ha, h⟩ := R.bind_ok _ _ _ h
+    simp only [R.ok.injEq] at h; subst h
+    simp only [Expr.supported, Bool.and_eq_true]
+    exact ⟨⟨kindP_accepted k a hw.1.1 ha, hw.1.2⟩, hw.2⟩
+theorem nodePList_accepted : ∀ (ps : NodePList) (es : ExprList), ps.wire = true →
+    ps.fromProto cv = .ok es → es.supported = true
+  | .nil, es, _, h => by simp only [NodePList.fromProto, R.ok.injEq] at h; subst h; rfl
+  | .cons p ps, es, hw, h => by
+    simp only [NodePList.wire, Bool.and_eq_true] at hw
+    simp only [NodePList.fromProto] at h
+    obtain ⟨e', he, h⟩ := R.bind_ok _ _ _ h
+    obtain ⟨es', hes, h⟩ := R.bind_ok _ _ _ h
+    simp only [R.ok.injEq] at h; subst h
+    simp only [ExprList.supported, Bool.and_eq_true]
+    exact ⟨nodeP_accepted p e' hw.1 he, nodePList_accepted ps es' hw.2 hes⟩
+end
+
+/-- **What the client sends and the server accepts, round-trips.**  For any request `p` without a nil
+literal and without a query inside a collection literal: if `ExpressionFromProto(p)` succeeds with `e` (and
+the cap radii that `e` now holds are reproduced by the float conversion), then `e.ToProto()` succeeds with
+some `p'`, `ExpressionFromProto(p')` is `e` again, and converting once more gives `p'` again. -/
+theorem wire_roundtrip_partial (p : NodeP) (e : Expr) (hw : p.wire = true) (h : p.fromProto cv = .ok e)
+    (hc : e.capStable cv = true) :
+    ∃ p', e.toProto = .ok p' ∧ p'.fromProto cv = .ok e ∧
+      ∀ e'', p'.fromProto cv = .ok e'' → e''.toProto = .ok p' := by
+  have hs := nodeP_accepted cv p e hw h
+  obtain ⟨p', h1, h2⟩ := expr_roundtrip cv e hs hc
+  exact ⟨p', h1, h2, fun e'' h3 => proto_idempotent cv e e'' p' hs hc h1 h3⟩
+
+/-! ## non-vacuity, and the shapes outside the domain -/
+
+def sampleExpr : Expr :=
+  .mk (.call (.mk (.symbol "66696e64") "" 0 4)
+        (.cons (.mk (.query (.inter (.cons (.tagged "23616d656e697479" (.str "63616665"))
+                  (.cons (.typed .area (.keyed "236275696c64696e67")) .nil)))) "71" 5 40)
+        (.cons (.mk (.lambda ["78"] (.mk (.coll (.cons (.int (-7)) (.float 4607182418800017408) .nil)) "" 50 60)) "" 41 61)
+        .nil)) true) "726f6f74" 0 61
+
+example : sampleExpr.supported = true := by decide
+example : ∃ p, sampleExpr.toProto = .ok p ∧ p.fromProto id = .ok sampleExpr :=
+  proto_roundtrip_exact sampleExpr (by decide)
+
+def sampleCap : Expr := .mk (.query (.cap ⟨515000000, -1000000⟩ 4647503709213818880)) "" 0 0
+example : sampleCap.supported = true ∧ sampleCap.capStable id = true := by decide
+
+/-- a conversion that moves a radius by one unit in the last place breaks the round trip of a cap query:
+this is what the real float computation does for some radii (finding `cap-radius-drift`) -/
+theorem cap_radius_counterexample : ¬ proto_roundtrip_statement := by
+  intro h
+  obtain ⟨p, h1, h2⟩ := h (· + 1) sampleCap (by decide)
+  simp only [sampleCap, Expr.toProto, Any.toProto, Query.toProto, R.ok.injEq] at h1
+  subst h1
+  simp [NodeP.fromProto, KindP.fromProto, LitP.fromProto, QueryP.fromProto, sampleCap] at h2
+
+/-- the unrestricted statement, for the record -/
+def proto_roundtrip_all_statement : Prop :=
+  ∀ e : Expr, ∃ p, e.toProto = .ok p ∧ p.fromProto id = .ok e
+
+/-- the nil literal comes back as an expression without an `AnyExpression` (and that one panics in `ToProto`) -/
+theorem nil_literal_counterexample :
+    (Expr.mk .nilLit "" 0 0).toProto = .ok (.mk (.literal .nilV) "" 0 0) ∧
+    (NodeP.mk (.literal .nilV) "" 0 0).fromProto id = .ok (.mk .absent "" 0 0) ∧
+    (Expr.mk .absent "" 0 0).toProto = .panic := ⟨rfl, rfl, rfl⟩
+
+/-- queries `NewQueryFromProto` has no case for: printed, but not read back -/
+theorem unsupported_query_counterexample :
+    (Expr.mk (.query .empty) "" 0 0).toProto = .ok (.mk (.literal (.queryV .empty)) "" 0 0) ∧
+    (NodeP.mk (.literal (.queryV .empty)) "" 0 0).fromProto id = .err ∧
+    (NodeP.mk (.literal (.queryV .isValid)) "" 0 0).fromProto id = .err ∧
+    (NodeP.mk (.literal (.queryV (.cells [1]))) "" 0 0).fromProto id = .err ∧
+    (NodeP.mk (.literal (.queryV (.might [1]))) "" 0 0).fromProto id = .err ∧
+    (NodeP.mk (.literal (.queryV (.typedNoQuery 1))) "" 0 0).fromProto id = .err := ⟨rfl, rfl, rfl, rfl, rfl, rfl⟩
+
+/-- a tag value that is not a string comes back as a string -/
+theorem tag_value_counterexample :
+    ∃ p, (Expr.mk (.tag "6b" (.other "35")) "" 0 0).toProto = .ok p ∧
+      p.fromProto id = .ok (.mk (.tag "6b" (.str "35")) "" 0 0) := ⟨_, rfl, rfl⟩
+
+/-- a collection literal holding a query is accepted from the wire but cannot be sent back:
+`FromLiteral` has no case for `Query`, the error leaves a nil proto, `Expression.ToProto` panics -/
+theorem collection_query_counterexample :
+    (NodeP.mk (.literal (.collV (.cons (.intV 0) (.queryV .all) .nil) 0 0)) "" 0 0).fromProto id
+      = .ok (.mk (.coll (.cons (.int 0) (.query .all) .nil)) "" 0 0) ∧
+    (Expr.mk (.coll (.cons (.int 0) (.query .all) .nil)) "" 0 0).toProto = .panic := ⟨rfl, rfl⟩
+
+theorem proto_roundtrip_all_counterexample : ¬ proto_roundtrip_all_statement := by
+  intro h
+  obtain ⟨p, h1, _⟩ := h (.mk .absent "" 0 0)
+  simp [Expr.toProto, Any.toProto] at h1
 
 end B6.Props.C19
